@@ -439,11 +439,11 @@ theorem uclose_start {g : Cfg} {c : Conn} {r : AReq} (hph : c.phase = .closing r
 
 /-- One poll that starts inside the (write-only) handler. -/
 theorem uhandler_core {g : Cfg} (ok : UOK g) {c : Conn} {r : AReq} {h : HState} (hph : c.phase = .handler r h)
-    (hout : HOut g.Wc (fun _ _ _ => False) c.env (handlerPoll (handlerFuel c.env) r h c.env))
+    (hout : HOut g.Wc (fun _ _ _ => False) c.env (handlerPoll (handlerFuel c.env r) r h c.env))
     (hb : Ben c.env.tr) (hstop : c.stop = false) (hev : Ev1 g c.env.tr) (hsc : c.scripts = g.more) :
     URes g 4 c := by
   have hstep := C07.handler_step c r h hph
-  rcases hhp : handlerPoll (handlerFuel c.env) r h c.env with ⟨r', h', e', res⟩
+  rcases hhp : handlerPoll (handlerFuel c.env r) r h c.env with ⟨r', h', e', res⟩
   rw [hhp] at hstep hout
   obtain ⟨hts, hsegs, hres⟩ := hout
   simp only at hts hsegs hres
@@ -482,12 +482,13 @@ theorem ufirst_poll {g : Cfg} (ok : UOK g) {c : Conn} {e1 : Bytes}
       rfl, rfl, rfl, hlen, Str.SInv_fromParser g.cap g.p.request e1 g.mc hlen (pid_of_wf ok.wf).2⟩
     show e1 ++ c.env.tr.input = g.U
     rw [ok.hU, ← ok.hX]; exact hwire
-  have hfuel := handlerFuel_ge c.env
+  have hfuel := handlerFuel_ge c.env (AReq.new (Str.Parser.fromParser g.cap g.p.request e1 g.mc))
   have hfu := ok.hfu
   rcases ok.mode with ⟨hs, hdata⟩ | hs
   · -- `[.ret st]`
     have hstep := C07.handler_step c _ _ hph
-    obtain ⟨f, hf⟩ : ∃ f, handlerFuel c.env = f + 1 := ⟨handlerFuel c.env - 1, by omega⟩
+    obtain ⟨f, hf⟩ : ∃ f, handlerFuel c.env (AReq.new (Str.Parser.fromParser g.cap g.p.request e1 g.mc)) = f + 1 :=
+      ⟨handlerFuel c.env (AReq.new (Str.Parser.fromParser g.cap g.p.request e1 g.mc)) - 1, by omega⟩
     rw [hs, hf, hp_ret] at hstep
     have hstep' : stepConn c = .next ⟨.closing (AReq.new (Str.Parser.fromParser g.cap g.p.request e1 g.mc)) .start g.st 0,
         c.env.ev s!"HE(ok:{showStatus g.st})", c.scripts, c.stop⟩ := hstep
@@ -606,7 +607,7 @@ theorem ustage_poll {g : Cfg} (ok : UOK g) {c : Conn} (hst : UStage g c) :
   | parse hst hsc hm hev => exact (uparse_poll ok hst hsc hm hev).mono (by omega)
   | @hwrite r h O1 hph hw hb hstop hev hsc =>
     refine (uhandler_core ok hph (write_phase hw hb ?_) hb hstop hev hsc).mono (by omega)
-    have := handlerFuel_ge c.env
+    have := handlerFuel_ge c.env r
     have := ok.hfu
     show wcost g.data.length + 3 ≤ _
     omega
